@@ -43,13 +43,13 @@ theorem withDetached_self (g : Node) : g.withDetached (g.core.forState none).det
 theorem C07_roundtrip : RoundTripStatement Cfg.repaired := by
   intro g hwf
   refine ⟨_, load_save_node Cfg.repaired g hwf (fun h => by simp [Cfg.repaired] at h) none, ?_⟩
-  rw [obs_img Cfg.repaired g hwf (atMostOne_of_repaired _ rfl rfl g), withDetached_self]
+  rw [obs_img Cfg.repaired g hwf (atMostOne_of_repaired _ rfl rfl rfl g), withDetached_self]
 
 /-- FULL STATEMENT (repaired restore), file back end -/
 theorem C07_roundtrip_file : FileRoundTripStatement Cfg.repaired := by
   intro g hwf
   obtain ⟨g', h1, h2⟩ := fileLoad_save Cfg.repaired g hwf (fun h => by simp [Cfg.repaired] at h)
-    (atMostOne_of_repaired _ rfl rfl g) none
+    (atMostOne_of_repaired _ rfl rfl rfl g) none
   exact ⟨g', h1, by rw [h2, withDetached_self]⟩
 
 /-- … any number of times in a row (the result of a round trip is again a graph that round-trips) -/
@@ -69,10 +69,10 @@ theorem C07_roundtrip_twice (g : Node) (hwf : WF g) :
 /-! ## the pinned code: partial statement -/
 
 /-- PARTIAL (the tree as it is): the round trip is faithful for every well-formed graph in which no
-data input holds more than one connection, no signal output fires more than one receiver, and
-re-forging the value links pushes nothing new (`Settled`: linked values in step, no linked owner
-running) — for ANY combination of the three repairs the same theorem holds with the corresponding
-hypothesis dropped -/
+data input holds more than one connection, no signal output fires more than one receiver, no
+composite holds a cache (`AtMostOne`), and re-forging the value links pushes nothing new (`Settled`:
+linked values in step, no linked owner running) — for ANY combination of the four repairs the same
+theorem holds with the corresponding hypothesis dropped -/
 theorem C07_roundtrip_partial (cfg : Cfg) (g : Node) (hwf : WF g) (hone : AtMostOne cfg g)
     (hset : cfg.pushLinks = true → Settled g) :
     (∃ g', load cfg (save none g) = .ok g' ∧ obs [] g' = obs [] g) ∧
@@ -301,6 +301,16 @@ def w5 : Node :=
 theorem C07_foreign_connection_unloadable :
     errorOf Cfg.pinned w5 = some .key ∧ errorOf Cfg.repaired w5 = some .key := by decide
 
+/-- W6 — a composite that holds a cache (it ran) -/
+def w6 : Node :=
+  .mk { core0 0 100 .workflow [] [] with cached := some [v 1] } [leaf 1 1 [chn 0 (v 1)] [chn 0 (v 2)]] noC noC
+
+/-- KF-C07-5: every re-adopted child calls back `add_child`, which resets the composite's cache: the
+copy has forgotten it (and will execute where the original answers from its cache) -/
+theorem C07_composite_cache_forgotten :
+    shows Cfg.pinned w6 ≠ some (obs [] w6) ∧ shows Cfg.repaired w6 = some (obs [] w6) ∧
+    after Cfg.pinned w6 (fun g' => g'.core.cached) = some none := by decide
+
 /-- non-vacuity of the partial statement on the pinned code: a nested graph (workflow ⊃ macro with
 value links ⊃ leaves) in a partly run, partly failed state with `NOT_DATA`, executor instructions
 and single connections satisfies its hypotheses and round-trips through both back ends -/
@@ -316,7 +326,7 @@ def exG : Node :=
     [leaf 1 1 [chn 0 .nd] [chn 0 (v 7)], exInner]
     (CG.ofTables [((2, 0), [(1, 0)])] [((1, 0), [(2, 0)])]) noC
 
-example : shows Cfg.pinned exG = some (obs [] exG) ∧ showsFile Cfg.pinned exG = some (obs [] exG) := by decide
+example : shows Cfg.pinned exG = some (obs [] exG) ∧ showsFile Cfg.pinned exG = some (obs [] exG) := by decide +kernel
 
 theorem short_of_table (t : List (Addr × List Addr)) (h : (t.all fun p => decide (p.2.length ≤ 1)) = true) (a : Addr) :
     (lookupD t a).length ≤ 1 := by
@@ -340,11 +350,11 @@ theorem wf_exG : WF exG := by
 
 theorem one_exG : AtMostOne Cfg.pinned exG := by
   simp only [exG, exInner, leaf, AtMostOne, AtMostOneL, noC, CG.ofTables]
-  refine ⟨fun _ => short_of_table _ (by decide), fun _ => short_of_table _ (by decide), ?_, ?_, trivial⟩
-  · exact ⟨fun _ => short_of_table _ (by decide), fun _ => short_of_table _ (by decide), trivial⟩
-  · refine ⟨fun _ => short_of_table _ (by decide), fun _ => short_of_table _ (by decide), ?_, ?_, trivial⟩
-    · exact ⟨fun _ => short_of_table _ (by decide), fun _ => short_of_table _ (by decide), trivial⟩
-    · exact ⟨fun _ => short_of_table _ (by decide), fun _ => short_of_table _ (by decide), trivial⟩
+  refine ⟨fun _ => short_of_table _ (by decide), fun _ => short_of_table _ (by decide), fun _ _ => rfl, ?_, ?_, trivial⟩
+  · exact ⟨fun _ => short_of_table _ (by decide), fun _ => short_of_table _ (by decide), fun _ _ => rfl, trivial⟩
+  · refine ⟨fun _ => short_of_table _ (by decide), fun _ => short_of_table _ (by decide), fun _ _ => rfl, ?_, ?_, trivial⟩
+    · exact ⟨fun _ => short_of_table _ (by decide), fun _ => short_of_table _ (by decide), fun _ _ => rfl, trivial⟩
+    · exact ⟨fun _ => short_of_table _ (by decide), fun _ => short_of_table _ (by decide), fun _ _ => rfl, trivial⟩
 
 theorem settled_exG : Settled exG := by
   simp only [exG, exInner, leaf, Settled, SettledL]
@@ -390,3 +400,4 @@ end PwVerif.C07
 #print axioms PwVerif.C07.C07_dangling_link_unloadable
 #print axioms PwVerif.C07.C07_running_link_unloadable
 #print axioms PwVerif.C07.C07_foreign_connection_unloadable
+#print axioms PwVerif.C07.C07_composite_cache_forgotten
